@@ -25,6 +25,7 @@ import (
 	"bytes"
 	"compress/gzip"
 	"context"
+	"crypto/md5"
 	_ "crypto/sha256"
 	_ "crypto/sha512"
 	"encoding/hex"
@@ -586,6 +587,7 @@ func runCase(c Case) {
 	store.PreservePermissions = c.Preserve
 	ctx := context.Background()
 	verdicts := ""
+	steps := ""
 	nontrivial := false
 	var before map[string]objInfo
 	hasManifest := false
@@ -625,7 +627,18 @@ func runCase(c Case) {
 		if before == nil {
 			before = snapshotOutside()
 		}
-		err := store.Push(ctx, desc, bytes.NewReader(blob))
+		// watchdog: a push that does not return within 30 s is reported (with its replay), not waited for
+		errc := make(chan error, 1)
+		go func() { errc <- store.Push(ctx, desc, bytes.NewReader(blob)) }()
+		var err error
+		select {
+		case err = <-errc:
+		case <-time.After(30 * time.Second):
+			run.OracleFail(id, "wedged-push", fmt.Sprintf("push #%d title %q did not return within 30 s", i, p.Title), c)
+			run.Case(id, modelLine(c, modelCfg), "WEDGED")
+			run.Finish()
+			os.Exit(0)
+		}
 		after := snapshotOutside()
 		if err == nil {
 			verdicts += "O"
@@ -633,6 +646,9 @@ func runCase(c Case) {
 		} else {
 			verdicts += "E"
 		}
+		// the whole tree after every push (digest), not only at the end
+		sum := md5.Sum([]byte(listing()))
+		steps += verdicts[len(verdicts)-1:] + hex.EncodeToString(sum[:4])
 		// oracle 1: nothing outside the working directory changed
 		if kind, msg := diffSnap(before, after); kind != "" {
 			what := "blob"
@@ -680,7 +696,7 @@ func runCase(c Case) {
 	}
 	os.Chdir("/")
 	store.Close()
-	obs := verdicts + "|" + listing()
+	obs := steps + "|" + listing()
 	line := modelLine(c, modelCfg)
 	run.Case(id, line, obs)
 	run.Count("pushes=" + strconv.Itoa(len(c.Pushes)))
@@ -712,7 +728,15 @@ func runCase(c Case) {
 
 var segs = []string{"a", "b", "c", "s", "t", "x", "victim", "k"}
 
-func pickSeg(r *common.Rand) string { return common.Pick(r, segs) }
+// longSeg is longer than the 100 bytes of a USTAR name field (PAX long name / long link target)
+var longSeg = strings.Repeat("n", 120)
+
+func pickSeg(r *common.Rand) string {
+	if r.Chance(1, 60) {
+		return longSeg
+	}
+	return common.Pick(r, segs)
+}
 
 func relName(r *common.Rand, pool []string) string {
 	// a relative name below some directory: fresh segments or an extension of an earlier name
@@ -886,6 +910,9 @@ func genUnpack(r *common.Rand, title string, earlier *[]string, tag *int) Push {
 		case k < 5:
 			e.Kind = "d"
 			e.Mode = common.Pick(r, []int{0, 0, 0o700, 0o777, 0o750})
+			if r.Chance(1, 3) {
+				e.Name += "/" // as GNU tar writes directory names
+			}
 		case k < 8:
 			e.Kind = "s"
 			e.Target = genTarget(r, dirRel, names)
